@@ -58,6 +58,7 @@ pub fn slice_reader_exact_matches_std() {
     let mut r_s: &[u8] = &data[..sl];
     let got_v = { let mut vs = VolatileSlice::from(&mut mem[..bl]); r_v.read_exact_volatile(&mut vs) };
     let got_s = r_s.read_exact(&mut twin[..bl]);
+    if bl == 0 { assert!(got_v.is_ok(), "C18,C13: a zero-length exact read must succeed even from an exhausted stream"); }
     match (&got_v, &got_s) {
         (Ok(()), Ok(())) => {
             assert!(r_v.len() == r_s.len(), "C13,C03: remaining stream differs from std after read_exact");
@@ -134,6 +135,7 @@ pub fn cursor_reader_matches_std() {
         if exact {
             let a = { let mut vs = VolatileSlice::from(&mut mem[..bl]); c_v.read_exact_volatile(&mut vs) };
             let b = c_s.read_exact(&mut twin[..bl]);
+            if bl == 0 { assert!(a.is_ok(), "C18,C13: a zero-length exact read must succeed wherever the cursor stands (drained, seeked past the end, empty)"); }
             match (&a, &b) {
                 (Ok(()), Ok(())) => assert!(c_v.position() == c_s.position(), "C13: cursor position differs from std after read_exact"),
                 (Err(e), Err(f)) => assert!(kind_of(e) == Some(f.kind()), "C13: cursor read_exact error kind differs from std"),
